@@ -75,6 +75,17 @@ def apply_damage(root, single, view, damage, tree):
     for comps, length, kind in view:
         p = root if (single or not comps) else os.path.join(root, *comps)
         state.append({"path": p, "present": kind == "f", "len": length if kind == "f" else 0, "flips": []})
+    # payload members that are aliases of one another (symbolic links): the damage done through one name
+    # shows under the others too - the state of every entry is then OBSERVED after the damage
+    orig = None
+    if tree.get("symlinks") and damage:
+        orig = []
+        for s in state:
+            if s["present"]:
+                with open(s["path"], "rb") as fh:
+                    orig.append(fh.read())
+            else:
+                orig.append(b"")
     for d in damage:
         key = () if single else tuple(tree["files"][d["file"]]["path"])
         s = state[index[key]]
@@ -98,6 +109,18 @@ def apply_damage(root, single, view, damage, tree):
                     fh.seek(o)
                     fh.write(bytes([b[0] ^ 0xFF]))     # 1..255 -> never the original, may be 0
                 s["flips"].append(o)
+    if orig is not None:
+        for s, (comps, length, kind), ob in zip(state, view, orig):
+            if kind != "f":
+                continue
+            if not os.path.exists(s["path"]):
+                s["present"], s["len"], s["flips"] = False, 0, []
+                continue
+            with open(s["path"], "rb") as fh:
+                b = fh.read()
+            n = min(len(b), length)
+            s["present"], s["len"] = True, n
+            s["flips"] = [] if b[:n] == ob[:n] else [o for o in range(n) if b[o] != ob[o]]
     return [{"present": s["present"], "len": s["len"], "flips": sorted(s["flips"])} for s in state]
 
 
@@ -154,7 +177,54 @@ def run_scaled(case):
 
 
 def run_any(case):
+    if case.get("op") == "findroot":
+        return run_findroot(case)
     return run_scaled(case) if case.get("scaled") else run_recheck(case)
+
+
+def run_findroot(case):
+    """One world of spec/FindRoot.tla (directories above / below the payload named like the payload)
+    built on disk; a reference-encoded metafile of the world's kind; the real Checker is given the
+    payload root or its parent; recorded: the root it settled on and the verdict."""
+    sbx = new_sandbox("fr")
+    try:
+        w, v, P = case["world"], case["version"], 16384
+        base = os.path.join(sbx, "w")
+        data = {}
+        for comps in w["files"]:
+            data[tuple(comps)] = content("fr/" + "/".join(comps), 20000 + 7 * len(comps))
+            write_file(os.path.join(base, *comps), data[tuple(comps)])
+        for comps in w["dirs"]:
+            os.makedirs(os.path.join(base, *comps), exist_ok=True)
+        root = list(w["root"])
+        single = tuple(root) in data
+        if single:
+            files = [([], data[tuple(root)])]
+        else:
+            files = [(list(c[len(root):]), d) for c, d in sorted(data.items()) if list(c[:len(root)]) == root]
+        os.makedirs(os.path.join(sbx, "o"))
+        out = os.path.join(sbx, "o", "m.torrent")
+        write_file(out, refenc.build(w["meta"]["name"], files, P, v, single=single))
+        path = root if case["path_mode"] == "root" else list(w["parent"])
+        rec = {"id": case["id"], "op": "findroot", "group": "none", "clauses": case["clauses"], "version": v,
+               "world": {"files": w["files"], "dirs": w["dirs"]}, "fmeta": w["meta"], "path": path, "root": root,
+               "got": ["error"], "ppm": -1, "ppm2": -1, "status": "ok", "path_mode": case["path_mode"]}
+        cwd0 = os.getcwd()
+        try:
+            from torrentfile.recheck import Checker
+            ck = Checker(out, os.path.join(base, *path))
+            rel = os.path.relpath(str(ck.root), base)
+            rec["got"] = rel.split(os.sep)
+            rec["ppm"] = rec["ppm2"] = int(round(float(ck.results()) * 1000000))
+        except SystemExit as ex:
+            rec["status"] = "exit:%s" % ex.code
+        except Exception as ex:
+            rec["status"] = "exc:" + type(ex).__name__
+        finally:
+            os.chdir(cwd0)
+        return rec
+    finally:
+        rm(sbx)
 
 
 def run_recheck(case):
